@@ -2,9 +2,9 @@
 # tools/dev.sh <props> [patch.diff]: run quick checks on a pristine worktree (/tmp/pristine) with an optional in-memory patch,
 # without touching /repo or /verif/evidence (development aid; not a registered command).
 export GOFLAGS=-mod=mod GOPROXY=off GOSUMDB=off GOTOOLCHAIN=local; unset GOWORK
-cd /verif && go build -o bin/mcverif ./cmd/mcverif || exit 2
+cd /verif && go build -o bin/mcverif-dev ./cmd/mcverif || exit 2
 [ -d /tmp/pristine ] || git -C /repo worktree add --detach /tmp/pristine HEAD -q
 mkdir -p /tmp/vdev/evidence; rm -rf /tmp/vdev/fixtures; cp -r /verif/fixtures /tmp/vdev/fixtures; for x in known_findings.json selftest seeded; do [ -e /tmp/vdev/$x ] || ln -s /verif/$x /tmp/vdev/$x; done
 args=(-repo /tmp/pristine -verif /tmp/vdev -prop "$1" -tier "${TIER:-quick}")
 [ -n "${2:-}" ] && args+=(-patch "$2")
-exec ./bin/mcverif "${args[@]}"
+exec ./bin/mcverif-dev "${args[@]}"
